@@ -586,3 +586,12 @@ B('C19', 'last side condition decides', 'integral/rules.py',
 N('C19', 'side conditions accumulated with and', 'integral/rules.py',
   "                    cond = cond.inst_pat(inst)\n                    if not ctx.get_conds().check_condition(cond):\n                        satisfied = False\n                if satisfied:\n                    return normalize(identity.rhs.inst_pat(inst), ctx.get_conds())",
   "                    cond = cond.inst_pat(inst)\n                    satisfied = satisfied and ctx.get_conds().check_condition(cond)\n                if satisfied:\n                    return normalize(identity.rhs.inst_pat(inst), ctx.get_conds())")
+B('C04', 'expansion step computed and dropped', 'smt/veriT/verit_macro.py',
+  "                eq_pt = eq_pt.on_rhs(rewr_conv('disj_swap_eq'))\n        return eq_pt.equal_elim(prev)",
+  "                eq_pt.on_rhs(rewr_conv('disj_swap_eq'))\n        return eq_pt.equal_elim(prev)", 'C04.M8', 'smt/veriT/verit_macro.py :: results-used')
+N('C04', 'combinator called for its exception inside try', THEORY,
+  "            try:\n                self.get_term_sig(t.name, stvar=True).match(t.T)\n            except TypeMatchException:",
+  "            try:\n                self.get_term_sig(t.name, stvar=True).match_incr(t.T, TyInst())\n            except TypeMatchException:")
+B('C18', 'and_neg forgets the component its walk stops at', 'smt/veriT/verit_macro.py',
+  "            conj = conj.arg\n        else:\n            # the walk ended at the last conjunct (or args[0] is not a conjunction at all)\n            expected_conj.append(Not(conj))\n",
+  "            conj = conj.arg\n", 'C18.R8', 'AndNegMacro.eval')
